@@ -76,7 +76,7 @@ static void parse_events(const char *s)
         free(d);
 }
 
-static char cfgline[8192];
+static char cfgline[400000];
 
 void print_ws_json(FILE *f)
 {
@@ -210,7 +210,15 @@ int main(int argc, char **argv)
         mcx_verbose = verbose;
         if (replay && feedhex) replay = NULL;   /* sweep replay files carry the whole case in --feed-hex */
         if (feedhex) {
-                uint8_t bytes[4096]; int n = 0;
+                static uint8_t bytes[150000]; int n = 0;
+                if (feedhex[0] == '@') {        /* hex text in a file: one argument string cannot exceed the kernel's 128 KiB limit */
+                        FILE *hf = fopen(feedhex + 1, "r");
+                        if (!hf) mcx_fatal("cannot open %s", feedhex + 1);
+                        static char hexbuf[300002];
+                        size_t got = fread(hexbuf, 1, sizeof hexbuf - 1, hf); fclose(hf);
+                        while (got && (hexbuf[got - 1] == '\n' || hexbuf[got - 1] == ' ')) got--;
+                        hexbuf[got] = 0; feedhex = hexbuf;
+                }
                 for (const char *p = feedhex; p[0] && p[1] && n < (int)sizeof bytes; p += 2) { char h[3] = {p[0], p[1], 0}; bytes[n++] = (uint8_t)strtol(h, NULL, 16); }
                 if (setvars) {
                         char *d = strdup(setvars), *save = NULL;
